@@ -35,8 +35,8 @@ func init() {
 	}
 	kernel.Register(&kernel.Rig{
 		Property: "C11", Name: "serrig", Level: "exploration",
-		Rule: "Mostly seeded INPUT GENERATION, said plainly: per run 6-30 values of tape-chosen registered types (blocks, 6 tx kinds, votes, proposals, commits, parts, evidence, validator sets, status, results, receipts, logs, accounts, WAL and reactor messages) from three sources - (a) structurally valid values as the system builds them, (b) a type-directed corner-value filler (nil pointers/interfaces, 0/max/negative ints, big ints, odd times, maps), (c) hand-made encodings of types with private data - each checked decode(encode(v))==v (re-encoding AND tolerant structural compare), encode(decode(b))==b, repeat-encode and map-insertion-order canonicity. The simulated part is the transport-fault dimension: every encoding gets 8-64 faults (structure-aware: type-prefix swap, integer/length field rewrite, lying/non-canonical headers, list/str reshaping; blind: flips, truncation, splices, appended bytes; raw random bytes; cross-type delivery) offered to DecodeBytes/DecodeBytesWithType/Decode/DecodeWithType/DecodeReader[WithType] and WALDecoder, stream decoders through a reader with tape-chosen short reads and early EOF. Oracle: no panic, allocation of one decode <= 4096*len+16MiB (ReadMemStats delta), value or error, stream result == whole-buffer result, any value a decoder returns re-encodes to a fixpoint. Non-trivial run: >=10 faults fired and >=1 faulty input still decoded to a value. Distinct = hash over (type, encoding hash, per-fault kind and outcome).",
-		Real: []string{"libs/ser (encode, decode, cdc, typecache, raw)", "type registrations and EncodeSER/DecodeSER of types, libs/crypto, consensus (messages, WAL records, NewStatus), mempool, blockchain, evidence, state.Account",
+		Rule: "Mostly seeded INPUT GENERATION, said plainly: per run 6-30 values of tape-chosen registered types (blocks, 6 tx kinds, votes, proposals, commits, parts, evidence, validator sets, status, results, receipts, logs, accounts, WAL and reactor messages) from three sources - (a) structurally valid values as the system builds them, (b) a type-directed corner-value filler (nil pointers/interfaces, 0/max/negative ints, big ints, odd times, maps), (c) hand-made encodings of types with private data - each checked decode(encode(v))==v (re-encoding AND tolerant structural compare), encode(decode(b))==b, repeat-encode and map-insertion-order canonicity. The simulated part is the transport-fault dimension: every encoding gets 8-64 faults (structure-aware: type-prefix swap, integer/length field rewrite, lying/non-canonical headers, list/str reshaping; blind: flips, truncation, splices, appended bytes; raw random bytes; cross-type delivery) offered to DecodeBytes/DecodeBytesWithType/Decode/DecodeWithType/DecodeReader[WithType] and WALDecoder, stream decoders through a reader with tape-chosen short reads and early EOF. Oracle: no panic, allocation of one decode <= 4096*len+16MiB (ReadMemStats delta), value or error, stream result == whole-buffer result, any value a decoder returns re-encodes to a fixpoint. Retention (3 of 4 runs, pinned to one P because the codec's buffer pool is per P): 4-13 slices returned by EncodeToBytes/MustEncodeToBytes/EncodeToBytesWithType/MustEncodeToBytesWithType (and readers from EncodeToReader) of flat values (uints, strings, byte strings, hashes, addresses, big ints, RawValue, registered keys/signatures) and structured ones are HELD for a tape-chosen 2-8 later encodes (same type and size, other sizes, structured, writer entry point, another goroutine, drained reader, a decode), then each must still equal the private copy taken when it was returned and decode as it did then (encoding-aliased-and-overwritten/<entry>/<type>); 3-8 values decoded by DecodeBytes/DecodeReader/Decode must not change when the caller overwrites the input buffer (decoded-value-aliases-input/<entry>/<type>). Raw splitter API (libs/ser/raw.go) as decode target, 10-30 inputs per run: arbitrary bytes, genuine encodings, genuine encodings with a damaged outer header, a header-lie catalogue (string and list tags; announced sizes 0,55,56,2^8,2^16,2^24,2^32,2^56,2^63 and neighbours, 2^64-10..2^64-1, sizes whose header+size sum wraps into the input, sizes around the true length; minimal form, 8 size bytes, leading zero, forced long form) alone and nested in a well-formed list, node-shaped blobs (2/17-item lists of keys, hashes, embedded nodes, lying items) - offered to Split, SplitString, SplitList, CountValues (input and list content), ListSize, DecodeBytes into RawValue, a Stream reading the same bytes (Kind+Bytes/Raw, then walking the list), and to the trie node decoder through trie.Sync.Process, NewSync (node found in the local database) and VerifyProof. Oracle: no panic; termination (each call on its own goroutine, violation non-termination/<entry> after 3 s of process CPU time); against the rig's own header reader: an item not inside the input is refused, a well-formed canonical item is accepted, split exactly at header/content/rest, results are sub-slices of the input, count equals the number of items; Split and Stream agree on accept/kind/content/rest/element count; a node blob accepted by the trie is a complete 2- or 17-item list. Non-trivial run: >=10 faults fired and >=1 faulty input still decoded to a value. Distinct = hash over (type, encoding hash, per-fault kind and outcome).",
+		Real: []string{"libs/ser (encode, decode, cdc, typecache, raw incl. Split/SplitString/SplitList/CountValues/ListSize/RawValue and the encode buffer pool)", "libs/trie node decoding (decodeNode/decodeShort/decodeFull/decodeRef via Sync.Process, NewSync, VerifyProof) over libs/db MemDB", "type registrations and EncodeSER/DecodeSER of types, libs/crypto, consensus (messages, WAL records, NewStatus), mempool, blockchain, evidence, state.Account",
 			"consensus.WALEncoder/WALDecoder", "secp256k1 signing (for some generated transactions)"},
 		Stub: []string{"reactors' decodeMsg are private: the rig makes the same call (size guard + ser.DecodeBytesWithType into the reactor's message interface); Reactor.Receive is not driven (dispatch on hostile messages is C16)",
 			"blockchain reactor message types are private: their valid encodings are hand-made (registered prefix + field list)",
@@ -46,7 +46,11 @@ func init() {
 			"equality tolerates only what the codec documents: nil==empty slice, nil *big.Int==0, nil pointer==pointer to empty-encoding value, times compared as instants",
 			"a panic or error while ENCODING a value is counted as a probe (encode-panic/..., unencodable/...), not a violation: the statement's safety clause is about decoding",
 			"allocation bound is a length-prefix-bomb detector only (4096 x input + 16 MiB)",
-			"while the finding alloc-bomb/state.Account is open the rig protects the machine: foreign bytes (cross-type, raw) are not offered to the state.Account decoder and integer rewrites inside account records avoid 2^20..2^62 (a Proposal's encoding parses as an account whose token-map length is the proposal's Unix time; the map decoder would pre-allocate ~100 GB); lying length headers stop at 256 MiB and then jump to 2^62; workers run under RLIMIT_AS 24 GiB",
+			"the rig protects the machine against a regression of the (fixed) finding alloc-bomb/state.Account: integer rewrites inside account records avoid 2^20..2^62 (a Proposal's encoding parses as an account whose token-map length is the proposal's Unix time; the map decoder would pre-allocate ~100 GB); lying length headers stop at 256 MiB and then jump to 2^62; workers run under RLIMIT_AS 24 GiB",
+			"termination is judged by process CPU time (3 s for one call on an input of at most a few KiB, measured only once a call has been out for 100 ms), never by wall time alone: a starved worker cannot raise it; after a non-termination the run ends at once (a goroutine of the worker spins for ever) and an (entry point, input) pair seen not to terminate is not called again in that process (pure function, same verdict) so that shrinking does not pile up spinning goroutines",
+			"retention judges change only: what a held slice decodes to later is compared with what its private copy decoded to when it was returned, never with an expectation of the rig; aliasing documented by the API (Split returns sub-slices of its input) is not judged; when the pool hands a held buffer out again depends on GC timing, which only matters on a tree where slices alias the pool",
+			"non-canonical size information accepted by one raw entry point alone is not a violation by itself (the statement speaks about encodings); it is one when Split and Stream disagree about the same bytes",
+			"trie.VerifyProof is given a proof database holding the one blob under the requested root; a blob cannot refer to itself (hash links are not checked by this version of VerifyProof, a self-referring database would loop by construction)",
 			"a violation does not end the run (decodes are independent): the run records up to 6 distinct new keys; the kernel shrinks and reports the first",
 		},
 		QuickRuns: 16000, QuickBudget: 45 * time.Second,
@@ -241,6 +245,8 @@ type runner struct {
 	nRound, nFault, nPenetrated int
 	perType                     map[string]int
 	ms0, ms1                    runtime.MemStats
+	timer                       *time.Timer // guard (rawsplit.go)
+	nRetained                   int
 }
 
 // violate records a violation once per key and lets the run go on: the
@@ -862,6 +868,7 @@ func run(c *kernel.Ctx) {
 	}
 	wSrc := []int{4 + cfg.Int(5), 2 + cfg.Int(5), 1 + cfg.Int(3)} // realistic, corner, hand-made
 
+	var good []goodEnc
 	for i := 0; i < nvals && !r.stop; i++ {
 		tg := pickTarget(cfg)
 		var v interface{}
@@ -901,6 +908,7 @@ func run(c *kernel.Ctx) {
 		if enc == nil || r.stop {
 			continue
 		}
+		good = append(good, goodEnc{tg, enc})
 		c.Finger(tg.name, src, len(enc), fnv64(enc))
 		nf := faultsPer
 		if len(enc) > 8192 {
@@ -920,6 +928,24 @@ func run(c *kernel.Ctx) {
 			r.hostile(tg, rawBytes(r.fault), "raw-bytes")
 		}
 	}
+	// retention: encodings and decoded values held across later codec calls
+	if !r.stop && cfg.Bool(3, 4) {
+		r.retention(c.Tape.Fork("retain"), good)
+	}
+	// the raw splitter API and the trie node decoder
+	if !r.stop {
+		nraw := 10 + cfg.Int(20)
+		if c.Tier == kernel.Thorough {
+			nraw = 24 + cfg.Int(60)
+		}
+		var encs [][]byte
+		for _, g := range good {
+			if len(g.enc) <= 1<<16 {
+				encs = append(encs, g.enc)
+			}
+		}
+		r.rawPhase(encs, nraw)
+	}
 	if r.nFault >= 10 && r.nPenetrated >= 1 {
 		c.NonTrivial()
 	}
@@ -928,5 +954,5 @@ func run(c *kernel.Ctx) {
 		names = append(names, k)
 	}
 	sort.Strings(names)
-	c.Sample(map[string]interface{}{"values_round_tripped": r.nRound, "types": names, "faulty_inputs": r.nFault, "faulty_inputs_that_decoded": r.nPenetrated})
+	c.Sample(map[string]interface{}{"values_round_tripped": r.nRound, "types": names, "faulty_inputs": r.nFault, "faulty_inputs_that_decoded": r.nPenetrated, "encodings_held_across_later_encodes": r.nRetained})
 }
